@@ -1533,6 +1533,9 @@ pub fn check_fired(name: &str, pre: &Snap, post: &Snap) -> RefResult {
             let (size, index, dims) = (e.i.remove(0), e.i.remove(0), e.i.remove(0));
             let r = fl(e.f.remove(0));
             let (n, d, ix, rad) = neighbor_params(size, index, dims, r).unwrap();
+            if (edge_len(n, d) as u64).checked_pow(d as u32).is_none() {
+                return Ok(()); // hypercube larger than the address space: not judged
+            }
             let (sure, dc) = neighbours_ref(n, d, ix, rad);
             if post.iv.len() != e.iv.len() + 1 {
                 return bad("no neighbour vector pushed".into());
@@ -1547,6 +1550,9 @@ pub fn check_fired(name: &str, pre: &Snap, post: &Snap) -> RefResult {
             let (position, size, index, dims) = (e.i.remove(0), e.i.remove(0), e.i.remove(0), e.i.remove(0));
             let r = fl(e.f.remove(0));
             let (n, d, ix, rad) = neighbor_params(size, index, dims, r).unwrap();
+            if (edge_len(n, d) as u64).checked_pow(d as u32).is_none() {
+                return Ok(());
+            }
             let (sure, dc) = neighbours_ref(n, d, ix, rad);
             if !dc.is_empty() {
                 return Ok(()); // a point exactly on the radius: membership is a don't-care
@@ -1757,6 +1763,9 @@ pub fn check_fired(name: &str, pre: &Snap, post: &Snap) -> RefResult {
         }
         "GRAPH.PRINT" | "GRAPH.PRINT*DIFF" => {
             // text content is not compared (HashMap iteration order); one name must be pushed
+            if name == "GRAPH.PRINT*DIFF" && pre.g[0] == pre.g[1] && post == pre {
+                return Ok(()); // only reachable with NaN weights (frame guard): don't-care
+            }
             if post.n.len() != pre.n.len() + 1 {
                 return bad(format!("{} pushed no text", name));
             }
